@@ -5,6 +5,7 @@ static uv::Cmd cmds[] = {
 	{"namematch", cmd_namematch},
 	{"trace", cmd_trace},
 	{"serial", cmd_serial},
+	{"api", cmd_api},
 	{"json", cmd_json},
 	{"promela", cmd_promela},
 	{"lua", cmd_lua},
